@@ -21,14 +21,14 @@ def main():
 
 
 def _guards(prop, tier):
-    """a check must end: (1) the in-process z3 may use at most 12 GB (it raises, the query counts as undecided); (2) a watchdog thread
+    """a check must end: (1) the in-process z3 may use at most 24 GB (it raises, the query counts as undecided); (2) a watchdog thread
     ends the process with exit 2 (undecided - never a violation) once the wall-clock budget of the tier is used up.  The budget is
     several times the slowest check on the unchanged tree; PYVC_BUDGET_S overrides it."""
     import threading
     import time
     try:
         import z3
-        z3.set_param('memory_max_size', int(os.environ.get('PYVC_Z3_MEMORY_MB', '12000')))
+        z3.set_param('memory_max_size', int(os.environ.get('PYVC_Z3_MEMORY_MB', '24000')))
     except Exception:
         pass
     budget = float(os.environ.get('PYVC_BUDGET_S', '2700' if tier == 'quick' else '10800'))
